@@ -85,3 +85,20 @@ def _assemble_c20():
 
 
 _assemble_c20()
+
+
+# ---- C15: busmc explores the handler for given answer tables; cmdmc adds the `answer` command that fills the table ----
+def _extend_c15():
+    try:
+        from .checks_cmdA import C15_CMD_RUN, C15_CMD_RULE
+    except ImportError:
+        return
+    if "C15" in CHECKS and all(r["harness"] != C15_CMD_RUN["harness"] for r in CHECKS["C15"]["runs"]):
+        CHECKS["C15"]["runs"].append(C15_CMD_RUN)
+        CHECKS["C15"]["rule"] += " | " + C15_CMD_RULE
+        CHECKS["C15"]["engine"] = "busmc+cmdmc"
+        CHECKS["C15"]["assumptions"] = CHECKS["C15"].get("assumptions", []) + [
+            "answer command: 16 data bytes, one-digit addresses, `-d fe` and `-m` with a slave `-d` are left open"]
+
+
+_extend_c15()
